@@ -76,20 +76,29 @@ class Driver:
         return json.loads(line)
 
     def ask_many(self, reqs):
-        # pipeline: write all, then read all (driver flushes per line; use a thread-free chunked approach)
+        """Pipelined: a writer thread feeds the requests while this thread reads the replies (no pipe deadlock on big requests)."""
+        import threading
+        reqs = list(reqs)
+        err = []
+
+        def feed():
+            try:
+                for i in range(0, len(reqs), 64):
+                    self.p.stdin.write(''.join(json.dumps(r) + '\n' for r in reqs[i:i + 64]))
+                    self.p.stdin.flush()
+            except Exception as e:  # noqa: BLE001
+                err.append(e)
+        t = threading.Thread(target=feed, daemon=True)
+        t.start()
         out = []
-        CH = 200
-        for i in range(0, len(reqs), CH):
-            chunk = reqs[i:i + CH]
-            self.p.stdin.write(''.join(json.dumps(r) + '\n' for r in chunk))
-            self.p.stdin.flush()
-            for r in chunk:
-                line = self.p.stdout.readline()
-                if not line:
-                    raise RuntimeError('driver died')
-                out.append(json.loads(line))
-                self.count += 1
-                self.ops[r.get('op')] = self.ops.get(r.get('op'), 0) + 1
+        for r in reqs:
+            line = self.p.stdout.readline()
+            if not line:
+                raise RuntimeError('driver died (%r)' % (err[:1],))
+            out.append(json.loads(line))
+            self.count += 1
+            self.ops[r.get('op')] = self.ops.get(r.get('op'), 0) + 1
+        t.join()
         return out
 
     def close(self):
